@@ -1143,6 +1143,7 @@ def matrix_kinds(v31: bool) -> dict:
         "union_model_array": {"oneOf": [R("N"), {"type": "array", "items": {"type": "integer"}}]},
         "union_models": {"oneOf": [R("N"), R("N2")]}, "union_date_str": {"oneOf": [{"type": "string", "format": "date"}, {"type": "integer"}]},
         "union_enum_int": {"anyOf": [R("E"), {"type": "integer"}]},
+        "union_const_int": {"oneOf": [{"const": "fixed"}, {"type": "integer"}]}, "union_consts": {"oneOf": [{"const": "a"}, {"const": 7}]},
         "wrap_allof": {"allOf": [R("N")]}, "wrap_oneof": {"oneOf": [R("E")]}, "ref_union": R("U"),
     }
     if v31:
